@@ -670,18 +670,18 @@ def _alarm(signum, frame):
     raise ReTimeout()
 
 
-def guarded_call(limit, fn, *args):
+def guarded_call(limit, fn, *args, **kwargs):
     """fn(*args) under a CPU-time alarm (main thread only; elsewhere unguarded)."""
     import signal
     import threading
 
     if threading.current_thread() is not threading.main_thread():
-        return fn(*args)
+        return fn(*args, **kwargs)
     old = signal.signal(signal.SIGVTALRM, _alarm)
     try:
         signal.setitimer(signal.ITIMER_VIRTUAL, limit)
         try:
-            return fn(*args)
+            return fn(*args, **kwargs)
         finally:
             signal.setitimer(signal.ITIMER_VIRTUAL, 0)
     finally:
